@@ -571,6 +571,56 @@ FIXED = [
 ]
 
 
+def deep_probe(ctx: Ctx, rng, nbits: int, rows: int):
+    """one component with `nbits`+1 outputs whose prefixes become very unlikely (nbits fair coins and their parity): the Bernoulli
+    parameter the real sampler uses at EVERY depth must still be w_{i+1}(prefix,1)/w_i(prefix) as evaluated on the compiled graphs
+    (an absolute floor or threshold on the prefix weight shows up from depth ~23 on)."""
+    import jax
+    import jax.numpy as jnp
+    import tsim
+    import tsim.sampler as S
+    from tsim.compile.evaluate import evaluate
+    n = nbits + 1
+    text = "H " + " ".join(map(str, range(nbits))) + "\n" + "\n".join(f"CX {i} {nbits}" for i in range(nbits)) + "\nM " + " ".join(map(str, range(n)))
+    where = dict(circuit=text, detectors=False, kind="deep")
+    try:
+        smp = tsim.Circuit(text).compile_sampler(seed=1)
+        prog = smp._program
+        comp = max(prog.components, key=lambda c: len(c.output_indices))
+        nout = len(comp.compiled_scalar_graphs) - 1
+        num_f = int(getattr(prog, "num_f_params", 0) or 0)
+        order = list(comp.output_indices)
+        forced = rng.integers(0, 2, size=(rows, nout)).astype(bool)
+        # make every forced row a possible outcome: the output that is the parity qubit gets the parity of the others
+        if nbits in order:
+            j = order.index(nbits)
+            others = [c for c in range(nout) if c != j]
+            forced[:, j] = forced[:, others].sum(axis=1) % 2 == 1
+        f0 = np.zeros((rows, max(num_f, 0)), dtype=np.uint8)
+        with Forced(forced) as fo:
+            out, _ = S._sample_component(comp, jnp.asarray(f0), jax.random.key(0))
+        fsel = np.asarray(comp.f_selection)
+        fcols = np.zeros((rows, len(fsel)), dtype=bool)
+        for i in range(nout):
+            pre = np.concatenate([fcols, forced[:, :i]], axis=1)
+            one = np.concatenate([pre, np.ones((rows, 1), dtype=bool)], axis=1)
+            wi = np.abs(np.asarray(evaluate(comp.compiled_scalar_graphs[i], jnp.asarray(pre, dtype=jnp.bool_))).astype(np.complex128))
+            w1 = np.abs(np.asarray(evaluate(comp.compiled_scalar_graphs[i + 1], jnp.asarray(one, dtype=jnp.bool_))).astype(np.complex128))
+            want = w1 / wi
+            got = np.broadcast_to(np.asarray(fo.ps[i], dtype=np.float64), (rows,))
+            ctx.count(("deep", nbits, i), nontrivial=True, bucket="deep-prefix-conditionals", n=rows)
+            bad = np.abs(got - want) > 1e-3
+            if np.any(bad):
+                a = int(np.argmax(bad))
+                ctx.violation("deep-conditional",
+                              f"at depth {i} of a {nout}-output component the sampler used the Bernoulli parameter {got[a]:.6g}, the compiled graphs give "
+                              f"w_{i + 1}(prefix,1)/w_{i}(prefix) = {want[a]:.6g} (prefix weight {wi[a]:.3g})",
+                              dict(where, nbits=nbits, depth=i, prefix=forced[a, :i].astype(int).tolist()))
+                return
+    except Exception as e:  # noqa
+        ctx.violation("deep-probe-exception", f"deep-prefix probe raised {e!r}", dict(where, nbits=nbits, error=traceback.format_exc()[-1500:]))
+
+
 def run(ctx: Ctx) -> int:
     model_ok = standard_model_phase(ctx, TRANSLATORS, COQ_FILES, "Props.C06", "Props/C06.v")
     ctx.trusted += [
@@ -627,6 +677,9 @@ def run(ctx: Ctx) -> int:
             jax.clear_caches()
             gc.collect()
     ctx.cov["circuits"] = len(cases)
+    if not ctx.violations:
+        for nb in ([28] if quick else [26, 30, 40]):
+            deep_probe(ctx, rng, nb, 6)
     if model_usable and not ctx.violations:
         try:
             model_correspondence(ctx, state)
@@ -653,6 +706,10 @@ def replay(ctx: Ctx, obj) -> int:
     print(json.dumps({k: v for k, v in r.items() if k != "error"})[:3000])
     if "circuit" not in r:
         return 1
+    if r.get("kind") == "deep":
+        deep_probe(ctx, ctx.np_rng(), int(r["nbits"]), 6)
+        print("violations on replay:", [v["key"] for v in ctx.violations])
+        return 1 if ctx.violations else 0
     case = CircuitCase(r["circuit"], bool(r.get("detectors")))
     state = dict(model_cases=[], model_cap=0, reorder_cases=[])
     run_circuit(ctx, case, ctx.np_rng(), state, max_out=16, fcap=256, trivial_cap=10 ** 6, do_joint=True, jit_cap=10 ** 6)
